@@ -5,7 +5,7 @@
     format_float through its round-trip contract.
 """
 import numpy as np
-from pmv import common, gen, observe, instrument
+from pmv import common, gen, observe, instrument, corpus
 from pmv.oracles import report
 
 ID   = 'C19'
@@ -27,11 +27,16 @@ def plan (tier, seed):
     n = 200 if tier == 'quick' else 3500
     k = 24 if tier == 'quick' else 200
     return [dict (kind = 'model', i = i, seed = seed) for i in range (n)] \
-         + [dict (kind = 'sweep', i = i, seed = seed) for i in range (k)]
+         + [dict (kind = 'sweep', i = i, seed = seed) for i in range (k)] \
+         + [dict (c, kind = 'model') for c in corpus.plan_cases (seed, tier, 1, 3)]
 # end def plan
 
 def make (c):
     rng = np.random.default_rng ([c ['seed'], 19, c ['i']])
+    if 'corpus' in c:
+        spec = corpus.make (c, 19)
+        rng  = corpus.rng_of (c, 19)
+        return add_out (rng, spec)
     env = str (rng.choice (['free', 'free', 'ideal', 'real']))
     if env == 'free':
         spec = gen.fam_free (rng, equal_junction = True)
@@ -75,6 +80,10 @@ def make (c):
             rmax = max (g ['r'] for g in spec ['geo'])
             loads.append (dict (k = 'ins', radius = rmax * float (rng.uniform (1.2, 3)), eps = float (rng.uniform (1.5, 5)), tag = None))
     spec ['loads'] = loads
+    return add_out (rng, spec)
+# end def make
+
+def add_out (rng, spec):
     lam = gen.C_MHZ / spec ['f']
     spec ['out'] = dict \
         ( opts = sorted (set (['far-field'] + [str (x) for x in rng.choice (['far-field-absolute', 'near-field', 'far-field'], size = 2)]))
@@ -87,7 +96,7 @@ def make (c):
                   , [float (lam * 0.1)] * 3, [2, 1, int (rng.integers (1, 3))]]
         )
     return gen.clean (spec)
-# end def make
+# end def add_out
 
 class Judge:
     def __init__ (self):
